@@ -33,7 +33,12 @@ def domain(tier):
             variants = codes.deformation_variants(name)
             # deformation invariance of d is C08's business; here the
             # undeformed code plus (cheaply) the first deformation
-            for dname, kw in variants[:2]:
+            # the undeformed code and every deformation NAME (default axis);
+            # per-axis invariance of d is C08's business
+            byname = {}
+            for dname_, kw_ in variants:
+                byname.setdefault(dname_, (dname_, kw_))
+            for dname, kw in byname.values():
                 code = codes.build(name, size, dname, kw)
                 r = codes.project(code)
                 r['_label'] = codes.label(name, size, dname, kw)
